@@ -2,6 +2,7 @@
 use crate::report::Ctx;
 use crate::rng::Rng;
 
+pub mod path;
 pub mod powertrain;
 
 pub struct Spec {
@@ -19,6 +20,13 @@ const PT_ASSUME: &[&str] = &[
     "units driven exactly like LocomotiveSimulation::step / ConsistSimulation::step: set_pwr_aux -> set_cur_pwr_max_out -> solve_energy_consumption -> save_state -> step; a rejected step is rolled back and another demand is tried",
     "single-unit braking demands are bounded by the drivetrain rating (full dynamic braking)",
     "hybrid and dummy locomotives, GoldenSectionSearch and FrontAndBack policies are outside the quantifier (todo!() in the code)",
+];
+
+const PATH_ASSUME: &[&str] = &[
+    "networks from the generator family of DESIGN.md section 3, each accepted by the crate's own validation (rejected draws are counted)",
+    "positive restriction speeds only (negative speeds are accepted by validation but undocumented)",
+    "restrictions ending past their link's end and zero-length restrictions are flagged sub-domains (low probability)",
+    "|grade| <= 2.5 %, link lengths 30 m - 30 km, train length 50 m - 3 km",
 ];
 
 pub fn spec(id: &str) -> Option<Spec> {
@@ -54,6 +62,30 @@ pub fn spec(id: &str) -> Option<Spec> {
             cases_thorough: 150000,
             rule: "case = generated consist of 1..8 conventional/battery units in any order, ratings differing up to 10x, SOC from empty to full, Proportional or RESGreedy, 100-1000 adversarial steps between full dynamic braking and full traction incl. exactly at the battery-first switch point; every accepted step checked for sum conservation, per-unit limits, sign agreement, regen only on battery units within published regen limit, battery-first residual. Non-trivial = mixed consist run with >=1 step with non-zero traction deficit or regen deficit; distinct = hash of parameters and step profile",
             assumptions: PT_ASSUME,
+        },
+        "C02" => Spec {
+            id: "C02",
+            run: path::run_speed,
+            cases_quick: 6000,
+            cases_thorough: 400000,
+            rule: "case = generated valid network (1..9 gaps, sidings, flips, permuted indices; 1..6 restrictions per set in controlled relations: nested, overlapping, abutting, equal start/end, enclosing; head-end and tail-end sets; typed speed_sets or speed_set; speed_params gates) x 4 (train, route) pairs x every extension schedule (all 2^(n-1) compositions for short routes, sampled above); enforced(x) read from PathTpc::speed_points() is compared with the reference min(train max, covering posted restrictions) built from the network at every breakpoint of either function and every midpoint (exact for piecewise-constant functions). Non-trivial = route with >=2 non-disjoint active restrictions on one link or a tail-end restriction crossing a link boundary; distinct = hash of route geometry, restrictions and train",
+            assumptions: PATH_ASSUME,
+        },
+        "C13" => Spec {
+            id: "C13",
+            run: path::run_speed,
+            cases_quick: 6000,
+            cases_thorough: 400000,
+            rule: "same generator and reference as C02; oracle is equality enforced(x) == min(train max, covering restrictions) at every breakpoint and midpoint plus canonical form (strictly increasing offsets, no equal-valued neighbours; zero-length restrictions are a flagged sub-domain where only sortedness is required). Non-trivial/distinct as C02",
+            assumptions: PATH_ASSUME,
+        },
+        "C06" => Spec {
+            id: "C06",
+            run: path::run_geometry,
+            cases_quick: 5000,
+            cases_thorough: 300000,
+            rule: "case = generated valid network x 3 (train, route) pairs x every extension schedule; link boundaries, elevation (all breakpoints + midpoints), grade and curve coefficients (independent atan2 formulation), cumulative curve resistance, catenary shifts and count bookkeeping are compared with a reference walk over the route's own points; paths from different schedules are compared with PartialEq; one spliced non-contiguous route per case must be rejected with Err. Non-trivial = route of >=3 links with a link without headings, with wrap-around headings or with catenary; distinct = hash of route geometry",
+            assumptions: PATH_ASSUME,
         },
         _ => return None,
     })
